@@ -5,6 +5,7 @@ package main
 
 import (
 	"fmt"
+	"go/token"
 	"go/types"
 	"strings"
 
@@ -87,6 +88,28 @@ func (m *Model) RunErrDrop(s *Sink, rule string, fns []*ssa.Function) {
 							if _, dbg := r.(*ssa.DebugRef); !dbg {
 								used = true
 							}
+						}
+					}
+					// an error of the module's own functions (Env.Set, ...) that is only ever compared with nil: the failure is
+					// noticed and then dropped — what the callee refused is not reported
+					if sc := call.Call.StaticCallee(); used && sc != nil && m.InModule(sc) {
+						onlyTested := true
+						for _, r := range *ev.Referrers() {
+							switch x := r.(type) {
+							case *ssa.DebugRef:
+							case *ssa.BinOp:
+								if !((x.Op == token.EQL || x.Op == token.NEQ) && (isNilConst(x.X) || isNilConst(x.Y))) {
+									onlyTested = false
+								}
+							default:
+								onlyTested = false
+							}
+						}
+						k2 := fmt.Sprintf("%s|error result #%d of %s is reported when it is not nil", fnKey(fn), i, name)
+						if onlyTested {
+							s.Violation(rule, k2, m.InstrPos(call), "%s only compares the %s returned by %s with nil and never looks at it again: the failure changes the control flow (a loop is left, a statement skipped) but is not reported, so the render succeeds with a part of the page silently missing", fnKey(fn), res.At(i).Type(), full)
+						} else {
+							s.OK(rule, k2, m.InstrPos(call), "the error value itself is used (its message, handed on, returned)")
 						}
 					}
 					if used {
